@@ -88,6 +88,8 @@ type Session struct {
 
 	state   LogonState
 	stateMu sync.RWMutex
+	// probedState is the state that the pending TestRequest probe interrupted.
+	probedState LogonState
 
 	// Services:
 	Router       Handler
@@ -207,6 +209,9 @@ func newSession(opts *Opts, handler Handler, settings *LogonSettings, cs Counter
 
 func (s *Session) changeState(state LogonState, isEventTriggerRequired bool) {
 	s.stateMu.Lock()
+	if state == WaitingTestReqAnswer && s.state != WaitingTestReqAnswer {
+		s.probedState = s.state
+	}
 	s.state = state
 	s.stateMu.Unlock()
 
@@ -495,10 +500,7 @@ func (s *Session) Run() (err error) {
 			return true
 		}
 
-		if s.currentState() == WaitingTestReqAnswer {
-			// reset SuccessfulLogged statue without event trigger
-			s.changeState(SuccessfulLogged, false)
-		}
+		s.endProbe()
 
 		return true
 	})
@@ -575,9 +577,7 @@ func (s *Session) start() error {
 
 	s.Router.HandleIncoming(simplefixgo.AllMsgTypes, func(msg []byte) bool {
 		incomingMsgTimer.Refresh()
-		if s.currentState() == WaitingTestReqAnswer {
-			s.changeState(SuccessfulLogged, false)
-		}
+		s.endProbe()
 
 		return true
 	})
@@ -701,6 +701,18 @@ func (s *Session) currentState() LogonState {
 	defer s.stateMu.RUnlock()
 
 	return s.state
+}
+
+// endProbe ends a pending TestRequest probe (any inbound message answers it): the session is
+// back in the state the probe interrupted, which is not necessarily the logged-on state -
+// the peer may have logged out, or a Logout of ours may be unanswered. No event is triggered.
+func (s *Session) endProbe() {
+	s.stateMu.Lock()
+	defer s.stateMu.Unlock()
+
+	if s.state == WaitingTestReqAnswer {
+		s.state = s.probedState
+	}
 }
 
 func (s *Session) IsLogged() bool {
